@@ -255,6 +255,14 @@ pub fn check(case: &Case, p: &mut Probe) -> Check {
     Ok(())
 }
 
+/// fuzz-target body: a byte tape decoded into a matrix (r <= n) and a message seed
+pub fn fuzz_bytes(data: &[u8]) -> Check {
+    let (h, salt) = mat_from_bytes(data, 12, true);
+    let case = Case { h, class: "fuzz".into(), msg_seed: salt };
+    let mut p = Probe::default();
+    guarded_check(|| check(&case, &mut p))
+}
+
 pub fn property() -> Property {
     Property {
         id: "C02",
